@@ -128,6 +128,8 @@ fn push_cases(tier: Tier) -> Vec<PushCase> {
 }
 
 struct Pred {
+    /// the predicate does not mention `a`: always run with every projection (few of them)
+    other_col: bool,
     sql: String,
     /// expected ids (column b) when the harness can compute them
     want: Option<Vec<i128>>,
@@ -164,22 +166,22 @@ fn preds(ty: &TypeSpec, rows: &[Option<usize>]) -> Vec<Pred> {
     for (c, pos) in &consts {
         for (op, f) in ops.iter() {
             let want = if ty.rm { pos.map(|k| ids(&|a| f(a, k))) } else { None };
-            out.push(Pred { sql: format!("a {op} {c}"), want: want.clone(), eq_form: *op == "=" });
-            out.push(Pred { sql: format!("{c} {} a", flip(op)), want, eq_form: *op == "=" });
+            out.push(Pred { other_col: false, sql: format!("a {op} {c}"), want: want.clone(), eq_form: *op == "=" });
+            out.push(Pred { other_col: false, sql: format!("{c} {} a", flip(op)), want, eq_form: *op == "=" });
         }
         let w_eq = if ty.rm { pos.map(|k| ids(&|a| a == k)) } else { None };
-        out.push(Pred { sql: format!("a IS NOT DISTINCT FROM {c}"), want: w_eq.clone(), eq_form: false });
-        out.push(Pred { sql: format!("NOT (a = {c})"), want: if ty.rm { pos.map(|k| ids(&|a| a != k)) } else { None }, eq_form: false });
-        out.push(Pred { sql: format!("a = {c} AND a IS NOT NULL"), want: w_eq.clone(), eq_form: true });
-        out.push(Pred { sql: format!("a = {c} AND b >= 0"), want: w_eq.clone(), eq_form: true });
-        out.push(Pred { sql: format!("b >= 0 AND {c} = a"), want: w_eq.clone(), eq_form: true });
+        out.push(Pred { other_col: false, sql: format!("a IS NOT DISTINCT FROM {c}"), want: w_eq.clone(), eq_form: false });
+        out.push(Pred { other_col: false, sql: format!("NOT (a = {c})"), want: if ty.rm { pos.map(|k| ids(&|a| a != k)) } else { None }, eq_form: false });
+        out.push(Pred { other_col: false, sql: format!("a = {c} AND a IS NOT NULL"), want: w_eq.clone(), eq_form: true });
+        out.push(Pred { other_col: false, sql: format!("a = {c} AND b >= 0"), want: w_eq.clone(), eq_form: true });
+        out.push(Pred { other_col: false, sql: format!("b >= 0 AND {c} = a"), want: w_eq.clone(), eq_form: true });
         for bk in [1, 5, 9, 10] {
-            out.push(Pred { sql: format!("a = {c} AND b = {bk}"), want: w_eq.as_ref().map(|w| w.iter().cloned().filter(|x| *x == bk).collect()), eq_form: true });
+            out.push(Pred { other_col: false, sql: format!("a = {c} AND b = {bk}"), want: w_eq.as_ref().map(|w| w.iter().cloned().filter(|x| *x == bk).collect()), eq_form: true });
         }
-        out.push(Pred { sql: format!("a = {c} OR b = 6"), want: w_eq.as_ref().map(|w| { let mut v = w.clone(); if !v.contains(&6) { v.push(6); } v.sort(); v }), eq_form: false });
-        out.push(Pred { sql: format!("a = {c} OR a IS NULL"), want: None, eq_form: false });
-        out.push(Pred { sql: format!("a = {c} AND s = 's1'"), want: None, eq_form: true });
-        out.push(Pred { sql: format!("(a = {c}) IS NOT TRUE"), want: None, eq_form: false });
+        out.push(Pred { other_col: false, sql: format!("a = {c} OR b = 6"), want: w_eq.as_ref().map(|w| { let mut v = w.clone(); if !v.contains(&6) { v.push(6); } v.sort(); v }), eq_form: false });
+        out.push(Pred { other_col: false, sql: format!("a = {c} OR a IS NULL"), want: None, eq_form: false });
+        out.push(Pred { other_col: false, sql: format!("a = {c} AND s = 's1'"), want: None, eq_form: true });
+        out.push(Pred { other_col: false, sql: format!("(a = {c}) IS NOT TRUE"), want: None, eq_form: false });
     }
     for i in 0..consts.len() {
         for j in 0..consts.len() {
@@ -187,33 +189,38 @@ fn preds(ty: &TypeSpec, rows: &[Option<usize>]) -> Vec<Pred> {
             let (c2, p2) = &consts[j];
             let both = if ty.rm { p1.zip(*p2) } else { None };
             if i <= j {
-                out.push(Pred { sql: format!("a BETWEEN {c1} AND {c2}"), want: both.map(|(k1, k2)| ids(&|a| a >= k1 && a <= k2)), eq_form: false });
+                out.push(Pred { other_col: false, sql: format!("a BETWEEN {c1} AND {c2}"), want: both.map(|(k1, k2)| ids(&|a| a >= k1 && a <= k2)), eq_form: false });
             }
             if i < j {
-                out.push(Pred { sql: format!("a IN ({c1}, {c2})"), want: both.map(|(k1, k2)| ids(&|a| a == k1 || a == k2)), eq_form: false });
-                out.push(Pred { sql: format!("a = {c1} AND a = {c2}"), want: both.map(|(k1, k2)| ids(&|a| a == k1 && a == k2)), eq_form: true });
-                out.push(Pred { sql: format!("a = {c1} OR a = {c2}"), want: both.map(|(k1, k2)| ids(&|a| a == k1 || a == k2)), eq_form: false });
-                out.push(Pred { sql: format!("a >= {c1} AND a < {c2}"), want: both.map(|(k1, k2)| ids(&|a| a >= k1 && a < k2)), eq_form: false });
+                out.push(Pred { other_col: false, sql: format!("a IN ({c1}, {c2})"), want: both.map(|(k1, k2)| ids(&|a| a == k1 || a == k2)), eq_form: false });
+                out.push(Pred { other_col: false, sql: format!("a = {c1} AND a = {c2}"), want: both.map(|(k1, k2)| ids(&|a| a == k1 && a == k2)), eq_form: true });
+                out.push(Pred { other_col: false, sql: format!("a = {c1} OR a = {c2}"), want: both.map(|(k1, k2)| ids(&|a| a == k1 || a == k2)), eq_form: false });
+                out.push(Pred { other_col: false, sql: format!("a >= {c1} AND a < {c2}"), want: both.map(|(k1, k2)| ids(&|a| a >= k1 && a < k2)), eq_form: false });
             }
         }
     }
-    out.push(Pred { sql: "a IS NULL".into(), want: Some(rows.iter().enumerate().filter(|(_, r)| r.is_none()).map(|(i, _)| i as i128).collect()), eq_form: false });
-    out.push(Pred { sql: "a IS NOT NULL".into(), want: Some(rows.iter().enumerate().filter(|(_, r)| r.is_some()).map(|(i, _)| i as i128).collect()), eq_form: false });
-    out.push(Pred { sql: "a = NULL".into(), want: Some(vec![]), eq_form: true });
-    out.push(Pred { sql: "a = a".into(), want: None, eq_form: false });
-    for bk in [0, 3, 4, 7, 8, 11, 12, -1] {
-        out.push(Pred { sql: format!("b = {bk}"), want: Some((0..12).filter(|x| *x == bk).map(|x| x as i128).collect()), eq_form: true });
+    out.push(Pred { other_col: false, sql: "a IS NULL".into(), want: Some(rows.iter().enumerate().filter(|(_, r)| r.is_none()).map(|(i, _)| i as i128).collect()), eq_form: false });
+    out.push(Pred { other_col: false, sql: "a IS NOT NULL".into(), want: Some(rows.iter().enumerate().filter(|(_, r)| r.is_some()).map(|(i, _)| i as i128).collect()), eq_form: false });
+    out.push(Pred { other_col: false, sql: "a = NULL".into(), want: Some(vec![]), eq_form: true });
+    out.push(Pred { other_col: false, sql: "a = a".into(), want: None, eq_form: false });
+    for bk in [0, 3, 4, 7, 8, 11, 12, -1, 106] {
+        out.push(Pred { other_col: true, sql: format!("b = {bk}"), want: Some((0..12).filter(|x| *x == bk).map(|x| x as i128).collect()), eq_form: true });
     }
-    out.push(Pred { sql: "b = 5 AND b = 6".into(), want: Some(vec![]), eq_form: true });
-    out.push(Pred { sql: "s = 's1'".into(), want: None, eq_form: true });
-    out.push(Pred { sql: "s = 'zz'".into(), want: None, eq_form: true });
-    out.push(Pred { sql: "b = 5 AND s = 's2'".into(), want: None, eq_form: true });
-    out.push(Pred { sql: "true".into(), want: Some((0..12).collect()), eq_form: false });
-    out.push(Pred { sql: "false".into(), want: Some(vec![]), eq_form: false });
+    for ck in [100, 103, 106, 111, 5, 112] {
+        out.push(Pred { other_col: true, sql: format!("c = {ck}"), want: Some((0..12).filter(|x| 100 + (11 - *x) == ck).map(|x| x as i128).collect()), eq_form: true });
+    }
+    out.push(Pred { other_col: true, sql: "b = 5 AND c = 106".into(), want: Some(vec![5]), eq_form: true });
+    out.push(Pred { other_col: true, sql: "c = 106 AND s = 's2'".into(), want: Some(vec![5]), eq_form: true });
+    out.push(Pred { other_col: true, sql: "b = 5 AND b = 6".into(), want: Some(vec![]), eq_form: true });
+    out.push(Pred { other_col: true, sql: "s = 's1'".into(), want: None, eq_form: true });
+    out.push(Pred { other_col: true, sql: "s = 'zz'".into(), want: None, eq_form: true });
+    out.push(Pred { other_col: true, sql: "b = 5 AND s = 's2'".into(), want: None, eq_form: true });
+    out.push(Pred { other_col: false, sql: "true".into(), want: Some((0..12).collect()), eq_form: false });
+    out.push(Pred { other_col: false, sql: "false".into(), want: Some(vec![]), eq_form: false });
     out
 }
 
-const PROJS: &[&str] = &["b", "b, a", "*", "a", "s, b", "a, a, b", "b, s, a", "s", "count(*)", "b + 1, a", "count(a), min(b), max(b)"];
+const PROJS: &[&str] = &["b", "b, a", "*", "a", "s, b", "a, a, b", "b, s, a", "s", "count(*)", "b + 1, a", "count(a), min(b), max(b)", "b, c", "c, b", "c", "b, a2", "a2, c", "s, c, b", "a2"];
 
 #[derive(Default)]
 struct Res {
@@ -233,14 +240,26 @@ fn build_file(pc: &PushCase) -> (Vec<u8>, Vec<Row>, Vec<Option<usize>>) {
     let b_vals: Vec<Option<PV>> = (0..12).map(|i| Some(PV::I32(i))).collect();
     let s_vals: Vec<Option<PV>> = (0..12).map(|i| if i == 4 { None } else { Some(PV::Bytes(format!("s{}", i % 3).into_bytes())) }).collect();
     let enc_a = if pc.enc_dict && pc.ty.phys != Phys::Boolean { Enc::Dict } else { Enc::Plain };
+    // c: same type as b with ranges disjoint from b's in every row group; a2: same type as a, reversed layout.
+    // A filter handed to the wrong column's statistics (position in the projection vs column index) prunes wrongly.
+    let c_vals: Vec<Option<PV>> = (0..12).map(|i| Some(PV::I32(100 + (11 - i)))).collect();
+    let a2_vals: Vec<Option<PV>> = (0..12).map(|i| rows[11 - i].map(|k| pc.ty.alpha[k].clone())).collect();
     let cols = vec![
         Column { name: "a".into(), phys: pc.ty.phys, logical: pc.ty.logical, optional: true, values: a_vals, enc: enc_a, old_dict_id: false, v2: pc.layout % 2 == 1, codec: Codec::None, levels: LevelMode::Rle, stats: pc.stats, page_rows: vec![3] },
         Column { name: "b".into(), phys: Phys::Int32, logical: Logical::None, optional: false, values: b_vals, enc: Enc::Plain, old_dict_id: false, v2: false, codec: Codec::None, levels: LevelMode::Rle, stats: pc.stats, page_rows: vec![4] },
         Column { name: "s".into(), phys: Phys::ByteArray, logical: Logical::Utf8, optional: true, values: s_vals, enc: Enc::Dict, old_dict_id: false, v2: false, codec: Codec::None, levels: LevelMode::Rle, stats: pc.stats, page_rows: vec![5] },
+        Column { name: "c".into(), phys: Phys::Int32, logical: Logical::None, optional: false, values: c_vals, enc: Enc::Plain, old_dict_id: false, v2: false, codec: Codec::None, levels: LevelMode::Rle, stats: pc.stats, page_rows: vec![4] },
+        Column { name: "a2".into(), phys: pc.ty.phys, logical: pc.ty.logical, optional: true, values: a2_vals, enc: Enc::Plain, old_dict_id: false, v2: false, codec: Codec::None, levels: LevelMode::Rle, stats: pc.stats, page_rows: vec![6] },
     ];
     let (bytes, _) = write_file(&cols, &pc.rgs);
     let want: Vec<Row> = (0..12).map(|i| cols.iter().map(|c| expected_val(c.phys, c.logical, &c.values[i])).collect()).collect();
     (bytes, want, rows)
+}
+
+/// errors raised by evaluating an expression on a row (cast / arithmetic), as opposed to errors of the scan machinery
+fn is_eval_error(msg: &str) -> bool {
+    let m = msg.to_ascii_lowercase();
+    ["failed cast", "failed to cast", "overflow", "out of range", "failed to parse", "division by zero", "divide by zero"].iter().any(|p| m.contains(p))
 }
 
 fn norm_rows(r: &[Row]) -> Vec<Row> {
@@ -281,7 +300,7 @@ fn check_push(d: &mut Driver, pc: &PushCase, tier: Tier, res: &mut Res) {
     let full = tier.is_thorough();
     for (pi, p) in ps.iter().enumerate() {
         // projections: all in thorough; in quick "b" + two rotating ones
-        let projs: Vec<&str> = if full { PROJS.to_vec() } else { vec![PROJS[0], PROJS[1 + pi % (PROJS.len() - 1)], PROJS[1 + (pi / 3 + 5) % (PROJS.len() - 1)]] };
+        let projs: Vec<&str> = if full || p.other_col { PROJS.to_vec() } else { vec![PROJS[0], PROJS[1 + pi % (PROJS.len() - 1)], PROJS[1 + (pi / 3 + 5) % (PROJS.len() - 1)]] };
         for proj in projs {
             if d.dirty {
                 return;
@@ -340,7 +359,7 @@ fn check_push(d: &mut Driver, pc: &PushCase, tier: Tier, res: &mut Res) {
                         }
                     }
                     (Outcome::Error { .. }, Outcome::Error { .. }) => {}
-                    (Outcome::Rows(_), Outcome::Error { phase: crate::drv::Phase::Exec, .. }) | (Outcome::Error { phase: crate::drv::Phase::Exec, .. }, Outcome::Rows(_)) => {
+                    (Outcome::Rows(_), Outcome::Error { phase: crate::drv::Phase::Exec, msg }) | (Outcome::Error { phase: crate::drv::Phase::Exec, msg }, Outcome::Rows(_)) if is_eval_error(msg) => {
                         // a run-time evaluation error (e.g. a failing cast of one row) that only the plan which evaluates
                         // the expression on that row raises: skipping work legitimately skips the error
                         res.asym += 1;
